@@ -27,7 +27,7 @@ EXTRA_STUBS = dyn.EXTRA_STUBS + _loaderh.EXTRA_STUBS
 REQUIRED_WITNESSES = ['success_exploit', 'success_subnet_scan', 'failure', 'other_state', 'current_state', 'loaded_repeat']
 STUBS, ASSUMPTIONS = common.STUBS, common.ASSUMPTIONS
 BOUNDS = dict(quick="shapes [1,1],[2,1]; S=2,O=2,P=1; every action kind on first/last host; x = current state and x = a different State object (arbitrary Inv-state)",
-              thorough="adds [1,1,1],[1,2], every target and name")
+              thorough="adds [1,1,1],[1,2] (up to three hosts), every target, service and process name")
 prefer = common.prefer
 
 
@@ -90,6 +90,8 @@ def queries(tier, seed=0):
         sh = q['shape']['sizes']
         if tier == 'quick' and (len(sh) > 2 or q.get('os') is not None):
             continue
+        if tier != 'quick' and (sum(sh) > 3 or q.get('os') not in (None, 'o0')):
+            continue        # thorough: up to three hosts, one OS variant (purity does not look at names)
         for other in (False, True):
             d = dict(q)
             d['other_state'] = other
